@@ -8,6 +8,9 @@ from gen import htmlgen
 logging.getLogger('web_monitoring_diff.html_render_diff').setLevel(logging.CRITICAL + 1)
 
 HAND_PAIRS = [
+    # a deleted script inside a graphic nested in another graphic: the inert template must end up outside BOTH
+    ('<p>hello</p><svg width="9"><g><svg><script>alert(6)</script><circle r="1"/></svg></g></svg><p>end</p>', '<p>hello</p><p>end</p>'),
+    ('<p>hello</p><svg><foreignObject><math><mi>x</mi><style>mi { color: red }</style></math></foreignObject></svg>', '<p>hello</p>'),
     # a deleted graphic whose script sits inside an element NAMED template (an SVG element there, nothing inert about it)
     ('<p>hello</p><svg><template><script>alert(5)</script></template><circle r="1"/></svg>', '<p>hello</p>'),
     ('<p>hello</p><math><template><style>mi { color: red }</style></template><mi>x</mi></math><p>end</p>', '<p>hello</p><p>end</p>'),
